@@ -3,9 +3,9 @@
   forceSerial = true (`ApiFu.C02.execSerial`); the line protocol is that of ApiFu/C02/Driver.lean:
     (run mutation (<field>…) (<mask>…)) → (out "<data>" (<errors>) rounds promises (<events>))
   The harness compares the event list (`start` / `fulfil` with response paths) and the response.
+  Extended model (general idle handler, panic cut): `(runx …)`, see ApiFu/C11/DriverExt.lean.
 -/
 import ApiFu.Common.Loop
-import ApiFu.C02.Driver
-import ApiFu.C11.Model
+import ApiFu.C11.DriverExt
 
-def main : IO Unit := ApiFu.lineLoopPure ApiFu.C02.Driver.handle
+def main : IO Unit := ApiFu.lineLoopPure ApiFu.C11.DriverExt.handle
